@@ -409,6 +409,24 @@ Definition generate_package (fuel : nat) (sch : aschema) (frags : list fragdef) 
   | _, _ => None
   end.
 
+(* A class statement `class X(A, B)` in which B is a subclass of A is rejected by Python's C3
+   linearisation (TypeError at import).  hazard1: some generated class lists a fragment base before
+   another fragment base whose own class has it as a direct base. *)
+Definition top_frags (m : fragmod) (f : string) : list string :=
+  match lookup f (fm_classes m) with Some (c :: _) => c_frags c | _ => [] end.
+Fixpoint before_derived (m : fragmod) (fs : list string) : bool :=
+  match fs with
+  | [] => false
+  | a :: r => existsb (fun b => mem a (top_frags m b)) r || before_derived m r
+  end.
+Definition mro_hazard1 (p : package) : bool :=
+  match pk_module p with
+  | None => false
+  | Some m =>
+      existsb (fun r => existsb (fun c => before_derived m (c_frags c)) (snd (fst r))) (pk_ops p)
+      || existsb (fun nc => existsb (fun c => before_derived m (c_frags c)) (snd nc)) (fm_classes m)
+  end.
+
 (* ---- sexp interface ---- *)
 Local Open Scope string_scope.
 
